@@ -17,6 +17,7 @@ pub mod tree_body;
 #[path = "../../engine_k/vlib/toy.rs"]
 pub mod toy;
 pub mod trees;
+pub mod scenarios;
 
 use std::panic;
 use vlib::Src;
@@ -77,6 +78,7 @@ fn dispatch(name: &str, s: &mut TapeSrc) -> bool {
         "c19_fr_neg" => c19_ops::body_neg_fr(s),
         "c19_fr_terncond" => c19_ops::body_terncond_fr(s),
         "c19_fr_divmod" => c19_ops::body_divmod_fr(s),
+        n if n.starts_with("scn_") => return scenarios::dispatch(name, s),
         _ => return trees::dispatch(name, s),
     }
     true
